@@ -12,8 +12,8 @@ SPEC = {
                   "miss; these are how the model's retrieve functions are DEFINED, so the theorems are one-liners and the weight is on the tie: "
                   "one regenerated fact per return statement of readTar, the 404/non-200 arms, the exit-status conjunction, the fact that "
                   "cmdCache.Retrieve's input never ends cleanly, and correspondence runs with the body cut at 2/5/30/60 %.  Fault-free round trip "
-                  "(full, by induction over the writer).  STORE side: ALL THREE FINDINGS ARE FIXED in /repo (f96953b: the HTTP writer fails "
-                  "the request on a read error; c251f14: the command cache's writer no longer writes tar's end marker after bailing "
+                  "(full, by induction over the writer).  STORE side: ALL THREE FINDINGS ARE FIXED in /repo (7cc82ab: the HTTP writer fails "
+                  "the request on a read error; 43938ff: the command cache's writer no longer writes tar's end marker after bailing "
                   "out) and the full-strength statements hold: C13_http_store_read_fault and C13_cmd_store_read_fault (every store "
                   "command, every amount taken in, every outcome of the kill race).  The old witnesses are kept conditional on the old "
                   "fact values.  History of the store side before the fixes: the HTTP store commits after a read error - a miss later only when "
@@ -80,9 +80,9 @@ Model corrections forced by the real code (each found by running a predicted cas
     a boundary cut is a miss there - a finding I had written down for failing store commands did not exist and was withdrawn;
   * the store state is measured block by block (PAX records of non-ASCII names broke the first measurement).
 
-FIX PHASE.  /repo f96953b (HTTP writer: w.CloseWithError(err); return) and c251f14 (command cache writer: no tw.Close() after bailing
+FIX PHASE.  /repo 7cc82ab (HTTP writer: w.CloseWithError(err); return) and 43938ff (command cache writer: no tw.Close() after bailing
 out) repair all three findings; on /repo now: exit 0, 22/22, 263 cases, 0 disagreements, oracle_fail = 0.  Re-introductions (git revert
-on scratch copies): f96953b -> exit 1, VIOLATION class http-store-commits-after-read-error, 21/22; c251f14 -> exit 1, VIOLATION class
+on scratch copies): 7cc82ab -> exit 1, VIOLATION class http-store-commits-after-read-error, 21/22; 43938ff -> exit 1, VIOLATION class
 cmd-naive-store-keeps-partial-archive-after-read-error, 20/22.  Thorough: exit 0, 18/18 at the time, 899 cases, 0 disagreements, 6 min 46 s.
 
 Unchanged tree before the fix phase: exit 0, 18/18, 263 cases, 0 disagreements, oracle failures only in the listed classes; the race finding is
